@@ -104,7 +104,7 @@ def c16_datasets(draw, max_n=7, max_m=5):
         if draw(st.integers(0, 4)) == 0:
             rankings.append([])
         return {"rankings": rankings, "shape": "mixed", "kind": kind}
-    return draw(gen.datasets(max_n=max_n, max_m=max_m, kinds=(kind,)))
+    return draw(gen.datasets(max_n=max_n, max_m=max_m, kinds=(kind,), many="byte"))
 
 
 # ----------------------------------------------------------------------------------------------
